@@ -31,6 +31,10 @@ var c17PoolRun func(f []string) (string, bool)
 var c17PoolGen func(r *Rand, tier string) []string
 var c17Isolate func(f []string) string
 
+// set by c17heap.go (build tag c17 only): the heap-machine op `heapm` and its generator
+var c17HeapRun func(f []string) (string, bool)
+var c17HeapGen func(r *Rand, tier string) []string
+
 func c17Run(f []string) string {
 	if s, ok := exprRun(f); ok {
 		return canonPanic(s)
@@ -42,6 +46,11 @@ func c17Run(f []string) string {
 	}
 	if c17PoolRun != nil {
 		if s, ok := c17PoolRun(f); ok {
+			return s
+		}
+	}
+	if c17HeapRun != nil {
+		if s, ok := c17HeapRun(f); ok {
 			return s
 		}
 	}
@@ -542,6 +551,9 @@ func c17GenCases(r *Rand, tier string) []string {
 	if c17PoolGen != nil {
 		out = append(out, c17PoolGen(r, tier)...)
 	}
+	if c17HeapGen != nil {
+		out = append(out, c17HeapGen(r, tier)...)
+	}
 	if tier == "thorough" {
 		out = append(out, c17Exhaustive()...)
 	}
@@ -637,6 +649,10 @@ func c17Stats(cases []string) map[string]int {
 			continue
 		case "pool":
 			st["pool.size."+f[1]]++
+			continue
+		case "heapm":
+			st["heapm.pool."+f[1]]++
+			st[fmt.Sprintf("heapm.helpers.%d", strings.Count(f[3], "M")+strings.Count(f[3], "F")+strings.Count(f[3], "R")+strings.Count(f[3], "O"))]++
 			continue
 		case "overlap":
 			t = string(UnHex(f[2]))
